@@ -178,6 +178,7 @@ fn features(k: u8) -> Features {
         1 => Features::Mask(FeatureMask::all()),
         2 => Features::Mask(FeatureMask::empty()),
         3 => Features::Custom(vec![]),
+        6 => Features::Mask(FeatureMask::default() | FeatureMask::FRAC),
         4 => Features::Custom([tag::LIGA, tag::KERN, tag::CCMP, tag::MARK, tag::RLIG].iter().map(|t| FeatureInfo { feature_tag: *t, alternate: None }).collect()),
         _ => Features::Custom([otmodel::tag(b"test"), tag::LIGA, tag::KERN, tag::MARK, tag::MKMK, tag::CURS].iter().map(|t| FeatureInfo { feature_tag: *t, alternate: Some(1) }).collect()),
     }
@@ -229,6 +230,8 @@ struct Job {
     start: u64,
     end: u64,
     cfg_bound: u32,
+    /// explicit list of strings (the fraction family); `start..end` index into it
+    texts: Option<std::sync::Arc<Vec<String>>>,
 }
 
 fn run_job(ctx: &Ctx, job: &Job, data: &[u8], cfgs: &[Config]) -> (u64, u64) {
@@ -240,10 +243,13 @@ fn run_job(ctx: &Ctx, job: &Job, data: &[u8], cfgs: &[Config]) -> (u64, u64) {
     let mut evals = 0u64;
     let mut nontrivial = 0u64;
     let what = |text: &str, cfg: &Config| {
-        json!({"script": sc.name, "font": sc.fonts[job.font], "text": text.chars().map(|c| format!("U+{:04X}", c as u32)).collect::<Vec<_>>(), "config": format!("{:?}", cfg)})
+        json!({"script": sc.name, "font": sc.fonts[job.font % 1000], "text": text.chars().map(|c| format!("U+{:04X}", c as u32)).collect::<Vec<_>>(), "config": format!("{:?}", cfg)})
     };
     for idx in job.start..job.end {
-        let text = nth_string(&job.alpha, job.len, idx);
+        let text = match &job.texts {
+            Some(t) => t[idx as usize].clone(),
+            None => nth_string(&job.alpha, job.len, idx),
+        };
         for cfg in cfgs {
             let script_tag = if cfg.script_alt { otmodel::tag(b"zzzz") } else { sc.tag };
             let lang = match cfg.lang {
@@ -262,6 +268,15 @@ fn run_job(ctx: &Ctx, job: &Job, data: &[u8], cfgs: &[Config]) -> (u64, u64) {
                 };
                 let dir = if cfg.rtl { TextDirection::RightToLeft } else { TextDirection::LeftToRight };
                 let pos = GlyphLayout::new(&mut font, &infos.0, dir, cfg.vertical).glyph_positions();
+                // A caller may lay out part of a shaped run (a line broken inside it): every prefix and suffix of a run
+                // that carries attachments must give a result or an error, never a panic (attachment indices then
+                // point at or past the end of the slice).
+                if infos.0.iter().any(|i| !matches!(i.placement, Placement::None)) {
+                    for k in 1..infos.0.len() {
+                        let _ = GlyphLayout::new(&mut font, &infos.0[..k], dir, cfg.vertical).glyph_positions();
+                        let _ = GlyphLayout::new(&mut font, &infos.0[k..], dir, cfg.vertical).glyph_positions();
+                    }
+                }
                 (input, n_in, infos, pos.map(|p| p.len()))
             });
             match r {
@@ -332,12 +347,56 @@ fn run_text(ctx: &Ctx) {
                 let chunk = 4000u64;
                 let mut s = 0;
                 while s < total {
-                    jobs.push(Job { script: si, font: fi, alpha: alpha.clone(), len, start: s, end: (s + chunk).min(total), cfg_bound: bound });
+                    jobs.push(Job { script: si, font: fi, alpha: alpha.clone(), len, start: s, end: (s + chunk).min(total), cfg_bound: bound, texts: None });
                     s += chunk;
                 }
             }
         }
         fonts.push(fdata);
+    }
+    // Fraction family (FRAC enabled): prefix x fraction x suffix on every Latin font. The frac lookups are applied to the
+    // glyphs of an ASCII fraction after the ordinary lookups have been applied to the text before it, which may have
+    // shrunk (ligatures, mark composition) or grown in the meantime.
+    let frac_cfgs: Vec<Config> = [1u8, 6]
+        .iter()
+        .flat_map(|&feats| [true, false].into_iter().map(move |kerning| Config { feats, lang: 0, kerning, rtl: false, vertical: false, script_alt: false }))
+        .collect();
+    let mut frac_fonts: Vec<Vec<u8>> = Vec::new();
+    let latin = SCRIPTS.iter().position(|s| s.name == "latin-default").expect("latin script");
+    {
+        let pre_alpha = ['f', 'i', 'A', '\u{301}', '\u{308}', ' '];
+        let suf_alpha = ['f', 'i', ' ', '1', '\u{301}'];
+        let fractions = ["1/1", "1/2", "11/1", "1/11"];
+        let all = |alpha: &[char], max: usize| -> Vec<String> {
+            let mut v = vec![String::new()];
+            for len in 1..=max {
+                for idx in 0..(alpha.len() as u64).pow(len as u32) {
+                    v.push(nth_string(alpha, len, idx));
+                }
+            }
+            v
+        };
+        let prefixes = all(&pre_alpha, if thorough { 3 } else { 2 });
+        let suffixes = all(&suf_alpha, 2);
+        let mut texts = Vec::new();
+        for p in &prefixes {
+            for f in fractions {
+                for s in &suffixes {
+                    texts.push(format!("{}{}{}", p, f, s));
+                }
+            }
+        }
+        let texts = std::sync::Arc::new(texts);
+        ctx.set("fraction_family", json!({"strings": texts.len(), "configs": frac_cfgs.len(), "fonts": SCRIPTS[latin].fonts.len()}));
+        for (fi, f) in SCRIPTS[latin].fonts.iter().enumerate() {
+            frac_fonts.push(crate::util::fixture(f));
+            let total = texts.len() as u64;
+            let mut s0 = 0;
+            while s0 < total {
+                jobs.push(Job { script: latin, font: 1000 + fi, alpha: Vec::new(), len: 0, start: s0, end: (s0 + 2000).min(total), cfg_bound: 99, texts: Some(texts.clone()) });
+                s0 += 2000;
+            }
+        }
     }
     ctx.set("text_jobs", json!(jobs.len()));
     let cap = if thorough { 1500.0 } else { 45.0 };
@@ -347,7 +406,11 @@ fn run_text(ctx: &Ctx) {
             skipped.fetch_add(job.end - job.start, std::sync::atomic::Ordering::Relaxed);
             return;
         }
-        let (e, nt) = run_job(ctx, job, &fonts[job.script][job.font], &cfgsets[job.cfg_bound as usize]);
+        let (e, nt) = if job.texts.is_some() {
+            run_job(ctx, job, &frac_fonts[job.font - 1000], &frac_cfgs)
+        } else {
+            run_job(ctx, job, &fonts[job.script][job.font], &cfgsets[job.cfg_bound as usize])
+        };
         ctx.evals(e);
         ctx.add_states(job.end - job.start);
         ctx.add_transitions(e);
@@ -506,13 +569,13 @@ pub fn replay(w: &Value) -> Result<(), String> {
     let ctx = Ctx::new("C02", mcx::Tier::Quick, "model_checking");
     let fi = sc.fonts.iter().position(|f| *f == fontname).unwrap_or(0);
     let si = SCRIPTS.iter().position(|s| s.name == name).unwrap();
-    // re-run the single string under every configuration with <= 2 deviations
-    let alpha: Vec<char> = text.chars().collect();
-    let len = alpha.len();
-    // index of the string in the enumeration over its own characters: simply enumerate all and filter
-    let total = (alpha.len().max(1) as u64).pow(len as u32);
-    let job = Job { script: si, font: fi, alpha: alpha.clone(), len, start: 0, end: total.min(50_000), cfg_bound: 2 };
-    run_job(&ctx, &job, &data, &configs(2));
+    // re-run the single string under every configuration with <= 2 deviations and under the FRAC configurations
+    let mut cfgs = configs(2);
+    for kerning in [true, false] {
+        cfgs.push(Config { feats: 6, lang: 0, kerning, rtl: false, vertical: false, script_alt: false });
+    }
+    let job = Job { script: si, font: fi, alpha: Vec::new(), len: 0, start: 0, end: 1, cfg_bound: 2, texts: Some(std::sync::Arc::new(vec![text])) };
+    run_job(&ctx, &job, &data, &cfgs);
     let keys = ctx.violation_keys();
     if keys.is_empty() {
         Ok(())
